@@ -8,7 +8,7 @@
    core/block.go VerifyBlockHash/BlockHash, core/transaction.go VerifyTransactions,
    core/state*/state.go Update (old-root and new-root checks).
 
-   Abstraction.  A block's CONTENT is identified by a content id `cid` = <<height, variant,
+   Abstraction.  A block's CONTENT is identified by a content id `cid` = <<height, shape,
    version>> (what the reference builder produced for that head) plus the set `alt` of single-field
    alterations applied afterwards (at most one per offer).  Hashes are uninterpreted injective
    terms: the block hash is the tuple of everything the protocol commits to for the block's
@@ -32,12 +32,20 @@ CONSTANTS
   SdFields,          \* field names that alter the state diff
   SuFields,          \* field names of the state update's own declared block hash / new root
   MaxLen,            \* bound on the chain length
-  Variants,          \* competing successors per head (content variants)
+  Shapes,            \* content variants competing for the same head; the shape says which parts of a
+                     \* block are POPULATED ("full": every transaction kind, events, messages, classes,
+                     \* every diff section; "emptydiff": transactions but no state-diff entry at all;
+                     \* "empty": no transaction and no diff entry; "bare": transactions without events /
+                     \* messages / reverts, a diff without classes)
+  Targets,           \* [shape -> SUBSET field names]: tamperings that have something to alter in that shape
+  EmptyDiffShapes,   \* shapes whose state diff has no entry (applying it leaves the root where it is)
+  ClassShapes,       \* shapes that declare classes
   MaxPending,        \* blocks verified ahead and not yet stored
   (* design switches; TRUE/TRUE/TRUE/FALSE is the code as it is.  The other settings are used as
      self-tests of the properties below (TLC must find the violation). *)
   SuccessionChecked, \* Store runs verifyBlockSuccession
   RootChecked,       \* state.Update compares the computed root with the declared one
+  RootCheckedOnEmptyDiff, \* ... also when the state diff has no entry
   TxHashesChecked,   \* VerifyBlockHash runs VerifyTransactions
   WriteBeforeChecks  \* Store writes header indexes outside the batch before checking
 
@@ -66,7 +74,9 @@ HashOf(b) == <<b.version, b.number, b.parent, b.root, b.cid,
                (b.alt \cap Committed[b.version]) \ (TxFields \cup SuFields), b.txh>>
 
 DiffOf(b) == <<b.cid, b.alt \cap SdFields>>
-RootAfter(s, b) == Append(s, DiffOf(b))
+(* a diff without entries changes nothing: the root after it is the root before it *)
+DiffIsEmpty(b) == b.cid[2] \in EmptyDiffShapes /\ b.alt \cap SdFields = {}
+RootAfter(s, b) == IF DiffIsEmpty(b) THEN s ELSE Append(s, DiffOf(b))
 
 (* protocol validity of a block on its own: every declared hash recomputes *)
 Valid(b) == /\ b.txh = TxHashOf(b)
@@ -81,9 +91,10 @@ Rehash(b) == LET b1 == [b EXCEPT !.txh = TxHashOf(b)] IN [b1 EXCEPT !.hash = Has
 Pristine(v, var) ==
   LET c == <<Len(chain), var, v>>
       b0 == [cid |-> c, number |-> Len(chain), parent |-> HeadHash, version |-> v, alt |-> {},
-             oldRoot |-> state, root |-> Append(state, <<c, {}>>), classOK |-> TRUE,
+             oldRoot |-> state, root |-> state, classOK |-> TRUE,
              txh |-> <<c, {}>>, hash |-> Zero]
-  IN [b0 EXCEPT !.hash = HashOf(b0)]
+      b1 == [b0 EXCEPT !.root = RootAfter(state, b0)]
+  IN [b1 EXCEPT !.hash = HashOf(b1)]
 
 --------------------------------------------------------------------------------
 (* the two stages of the pipeline, in the order of the code's checks *)
@@ -98,7 +109,8 @@ StoreWhy(b) ==
   IF SuccessionChecked /\ b.number # Len(chain) THEN "number"     \* verifyBlockSuccession
   ELSE IF SuccessionChecked /\ b.parent # HeadHash THEN "parent"
   ELSE IF b.oldRoot # state THEN "oldroot"                        \* state.Update: verifyComm(OldRoot)
-  ELSE IF RootChecked /\ b.root # RootAfter(state, b) THEN "root" \* state.Update: new root check
+  ELSE IF RootChecked /\ (RootCheckedOnEmptyDiff \/ ~DiffIsEmpty(b))
+          /\ b.root # RootAfter(state, b) THEN "root"             \* state.Update: new root check
   ELSE "ok"
 
 Written(d, b) == [height |-> b.number,
@@ -130,7 +142,7 @@ Process(b) ==
 --------------------------------------------------------------------------------
 CanGrow == Len(chain) < MaxLen
 NextVersions == {Versions[i] : i \in HeadVIdx..Len(Versions)}
-Act(name, v, var, f, kind) == [name |-> name, v |-> v, var |-> var, f |-> f, kind |-> kind, h |-> Len(chain)]
+Act(name, v, var, f, kind) == [name |-> name, v |-> v, var |-> var, f |-> f, kind |-> kind, seal |-> "", h |-> Len(chain)]
 
 (* a valid successor of the head *)
 Offer(v, var) ==
@@ -140,7 +152,7 @@ Offer(v, var) ==
 
 (* a valid successor with exactly one committed field altered; every declared hash is kept *)
 OfferTampered(v, var, f) ==
-  /\ CanGrow /\ v \in NextVersions /\ f \in Committed[v]
+  /\ CanGrow /\ v \in NextVersions /\ f \in Committed[v] \cap Targets[var]
   /\ act' = Act("OfferTampered", v, var, f, "")
   /\ Process([Pristine(v, var) EXCEPT !.alt = {f}])
 
@@ -157,21 +169,24 @@ OfferWrongNumber(v, var, kind) ==
   /\ Process(Rehash([Pristine(v, var) EXCEPT
                        !.number = IF kind = "skip" THEN Len(chain) + 1 ELSE Len(chain) - 1]))
 
-(* hash-valid block whose declared state root is not the root of applying its diff:
-   "root" - another root declared; "diff" - one diff entry altered, root kept;
-   "oldroot" - the state update claims another pre-state *)
-OfferWrongRoot(v, var, kind) ==
-  /\ CanGrow /\ v \in NextVersions /\ kind \in {"root", "diff", "oldroot"}
-  /\ act' = Act("OfferWrongRoot", v, var, "", kind)
+(* a block whose declared state root is not the root of applying its diff:
+   "root" - another root declared; "diff" - one diff entry altered / added, root kept;
+   "oldroot" - the state update claims another pre-state.
+   seal = "resealed": the block hash is recomputed over the altered block (and the state update
+   mirrors it), so ONLY the state-root checks of Store can reject it; seal = "kept": the old hash
+   is kept (the hash check rejects "root" and "diff"; the old root is not hashed). *)
+OfferWrongRoot(v, var, kind, seal) ==
+  /\ CanGrow /\ v \in NextVersions /\ kind \in {"root", "diff", "oldroot"} /\ seal \in {"resealed", "kept"}
+  /\ act' = [Act("OfferWrongRoot", v, var, "", kind) EXCEPT !.seal = seal]
   /\ LET p == Pristine(v, var)
          b == CASE kind = "root" -> [p EXCEPT !.root = Append(state, <<"other-root">>)]
-                [] kind = "diff" -> [p EXCEPT !.alt = {CHOOSE f \in SdFields \cap Committed[v] : TRUE}]
+                [] kind = "diff" -> [p EXCEPT !.alt = {CHOOSE f \in (SdFields \cap Committed[v]) \cap Targets[var] : TRUE}]
                 [] kind = "oldroot" -> [p EXCEPT !.oldRoot = Append(state, <<"other-root">>)]
-     IN Process(Rehash(b))
+     IN Process(IF seal = "resealed" THEN Rehash(b) ELSE b)
 
 (* hash-valid block carrying a class definition that does not hash to its declared class hash *)
 OfferStaleClassHash(v, var) ==
-  /\ CanGrow /\ v \in NextVersions
+  /\ CanGrow /\ v \in NextVersions /\ var \in ClassShapes
   /\ act' = Act("OfferStaleClassHash", v, var, "", "")
   /\ Process([Pristine(v, var) EXCEPT !.classOK = FALSE])
 
@@ -202,7 +217,7 @@ StorePending(b) ==
   /\ (Len(chain) < MaxLen \/ StoreWhy(b) # "ok")
   /\ pending' = pending \ {b}
   /\ cur' = b
-  /\ act' = [name |-> "StorePending", v |-> b.version, var |-> b.cid[2], f |-> "", kind |-> "", h |-> b.cid[1]]
+  /\ act' = [name |-> "StorePending", v |-> b.version, var |-> b.cid[2], f |-> "", kind |-> "", seal |-> "", h |-> b.cid[1]]
   /\ StoreStage(b)
 
 Init ==
@@ -211,14 +226,15 @@ Init ==
   /\ act = [name |-> "Init"] /\ res = [kind |-> "none"] /\ cur = [cid |-> Zero]
 
 Next ==
-  \/ \E v \in VSet, var \in 1..Variants : Offer(v, var)
-  \/ \E v \in VSet, var \in 1..Variants, f \in AllFields : OfferTampered(v, var, f)
-  \/ \E v \in VSet, var \in 1..Variants : OfferWrongParent(v, var)
-  \/ \E v \in VSet, var \in 1..Variants, k \in {"skip", "repeat"} : OfferWrongNumber(v, var, k)
-  \/ \E v \in VSet, var \in 1..Variants, k \in {"root", "diff", "oldroot"} : OfferWrongRoot(v, var, k)
-  \/ \E v \in VSet, var \in 1..Variants : OfferStaleClassHash(v, var)
-  \/ \E v \in VSet, var \in 1..Variants : OfferCommitFails(v, var)
-  \/ \E v \in VSet, var \in 1..Variants : VerifyAhead(v, var)
+  \/ \E v \in VSet, var \in Shapes : Offer(v, var)
+  \/ \E v \in VSet, var \in Shapes, f \in AllFields : OfferTampered(v, var, f)
+  \/ \E v \in VSet, var \in Shapes : OfferWrongParent(v, var)
+  \/ \E v \in VSet, var \in Shapes, k \in {"skip", "repeat"} : OfferWrongNumber(v, var, k)
+  \/ \E v \in VSet, var \in Shapes, k \in {"root", "diff", "oldroot"}, sl \in {"resealed", "kept"} :
+       OfferWrongRoot(v, var, k, sl)
+  \/ \E v \in VSet, var \in Shapes : OfferStaleClassHash(v, var)
+  \/ \E v \in VSet, var \in Shapes : OfferCommitFails(v, var)
+  \/ \E v \in VSet, var \in Shapes : VerifyAhead(v, var)
   \/ \E b \in pending : StorePending(b)
 
 Spec == Init /\ [][Next]_vars
@@ -230,6 +246,9 @@ TypeOK ==
   /\ Cardinality(pending) <= MaxPending
   /\ db.height \in -1..(MaxLen - 1)
 
+RECURSIVE StateOf(_)
+StateOf(i) == IF i = 0 THEN <<>> ELSE RootAfter(StateOf(i - 1), chain[i])
+
 (* everything stored verifies and links up; the state is the diffs of the stored blocks *)
 StoredChainValid ==
   \A i \in 1..Len(chain) :
@@ -238,10 +257,10 @@ StoredChainValid ==
     /\ b.alt \cap Committed[b.version] = {}       \* and differs from the builder's block in no committed field
     /\ b.number = i - 1
     /\ b.parent = (IF i = 1 THEN Zero ELSE chain[i - 1].hash)
-    /\ b.root = [j \in 1..i |-> DiffOf(chain[j])]
-    /\ b.oldRoot = [j \in 1..(i - 1) |-> DiffOf(chain[j])]
+    /\ b.root = StateOf(i)
+    /\ b.oldRoot = StateOf(i - 1)
 
-StateIsChain == state = [j \in 1..Len(chain) |-> DiffOf(chain[j])]
+StateIsChain == state = StateOf(Len(chain))
 
 (* the indexes are exactly the projection of the stored chain *)
 DbConsistent ==
